@@ -34,7 +34,9 @@ F_SIBLING = "C14-graph-same-type-subviews-share-id"
 F_HASH = "C14-graph-id-hash-collision"
 F_LEAFID = "C14-graph-operand-ids-local-to-subview"
 F_BCAST = "C14-unary-ufunc-drops-explicit-broadcast"
-ALL_FINDINGS = [F_DANGLING, F_SPINE, F_SIBLING, F_HASH, F_LEAFID, F_BCAST]
+F_SWAPMAYBE = "C14-swap-maybe-operand-not-applied"
+F_MATMUL = "C14-matmul-maybe-operand-dangling"
+ALL_FINDINGS = [F_DANGLING, F_SPINE, F_SIBLING, F_HASH, F_LEAFID, F_BCAST, F_SWAPMAYBE, F_MATMUL]
 
 
 class Skip(Exception):
@@ -194,16 +196,20 @@ def s_repeat(rnd, shapes):
 
 
 def s_roll(rnd, shapes):
-    d = len(shapes[0])
-    sh = rnd.randint(-3, 3)
+    # |shift| <= rolled extent (size for axis=None): larger shifts are a known view-level defect class (C04-roll-shift-exceeds-extent)
+    s0 = shapes[0]
+    d = len(s0)
     r = rnd.random()
     if r < 0.3:
+        n = prod(s0)
+        sh = rnd.randint(-min(3, n), min(3, n))
         return [str(sh)], {"shift": sh, "axis": None}
     if r < 0.8 or d < 2:
         ax = rnd.randint(-d, d - 1)
+        sh = rnd.randint(-s0[ax], s0[ax])
         return [str(sh), str(ax)], {"shift": sh, "axis": ax}
     ax = rnd.sample(range(d), 2)
-    shs = [rnd.randint(-2, 2) for _ in ax]
+    shs = [rnd.randint(-s0[a], s0[a]) for a in ax]
     return [ia(shs), ia(ax)], {"shift": shs, "axis": ax}
 
 
@@ -697,7 +703,7 @@ def render_curry(rid, case, max_variants=12, rnd=None):
     lines.append("{ auto d_ = %s; pg::emit(\"%s.direct\", \"\\\"obs\\\":\" + pg::obs(d_)); }" % (fx.direct_expr(xs, attrs), rid))
     recs.append({"id": rid + ".direct", "role": "direct"})
     for vi, seq in enumerate(variants):
-        lines.append("{ auto r_ = %s; pg::emit(\"%s.v%d\", \"\\\"obs\\\":\" + pg::obs(r_)); }" % (seq_text(fx.fn, seq, attrs, xs), rid, vi))
+        lines.append("{ auto r_ = %s; pg::emit(\"%s.v%d\", \"\\\"obs\\\":\" + pg::obs(r_) + \",\\\"rk\\\":\\\"\" + c14::result_kind(r_) + \"\\\"\"); }" % (seq_text(fx.fn, seq, attrs, xs), rid, vi))
         recs.append({"id": "%s.v%d" % (rid, vi), "role": "variant", "split": seq_label(seq), "canonical": vi == 0})
     text = "    {\n        %s\n    }\n" % "\n        ".join(lines)
     return text, {fx.hdr}, recs
@@ -716,7 +722,7 @@ def compose_case(rnd, length=None, use_comb=None, dt=None, pool=None):
     pool = pool or CHAIN_FUNCTORS
     for _ in range(200):
         k = length or rnd.randint(2, 4)
-        want_comb = rnd.random() < 0.55 if use_comb is None else use_comb
+        want_comb = rnd.random() < 0.7 if use_comb is None else use_comb
         cdt = dt or ("f64" if rnd.random() < 0.3 else "i32")
         names = [n for n in pool if cdt == "f64" or FX[n].dt == "i32"]
         arrays = []
@@ -735,7 +741,7 @@ def compose_case(rnd, length=None, use_comb=None, dt=None, pool=None):
                 left_most = pos == k - 1
                 remaining = k - pos - 1
                 # after this element the list must still be reducible to one value by the remaining elements (each reduces by <= 2)
-                if want_comb and not left_most and pos <= 1 and rnd.random() < 0.7 and not any("c" in e for e in chain):
+                if want_comb and not left_most and pos <= 2 and rnd.random() < (0.45 if pos == 0 else 0.6) and not any("c" in e for e in chain):
                     cname = rnd.choice(["swap", "dup", "dig1", "dig2", "bury1", "bury2", "swap", "dup", "dup3", "dig3", "bury3"])
                     ar = COMBINATORS[cname][1]
                     while len(L) < ar:
@@ -875,7 +881,7 @@ def render_compose(rid, case, rnd=None):
             gs.append(fully)
         for g in gs:
             call = "".join("(%s)" % ",".join(xs[i] for i in grp) for grp in g)
-            lines.append("{ auto f_ = %s; auto r_ = f_%s; pg::emit(\"%s.v%d\", \"\\\"obs\\\":\" + pg::obs(r_) + \",\\\"arity\\\":\" + std::to_string(c14::arity_of(f_))); }" % (b, call, rid, vi))
+            lines.append("{ auto f_ = %s; auto r_ = f_%s; pg::emit(\"%s.v%d\", \"\\\"obs\\\":\" + pg::obs(r_) + \",\\\"rk\\\":\\\"\" + c14::result_kind(r_) + \"\\\",\\\"arity\\\":\" + std::to_string(c14::arity_of(f_))); }" % (b, call, rid, vi))
             recs.append({"id": "%s.v%d" % (rid, vi), "role": "variant", "bracket": bi, "split": "x" + "x".join(str(len(grp)) for grp in g),
                          "canonical": bi == 0 and g is all_at_once})
             vi += 1
@@ -1276,6 +1282,8 @@ def run_blocks(items, group=3):
             if parts:
                 m["rejected_parts"].append(parts[0])
                 m["err_" + parts[0]] = (err2 or "")[:400]
+                if parts[0] == "graph" and ("CT_MAP_OUT_OF_RANGE" in (err2 or "") or "ct_digraph" in (err2 or "")):
+                    m["graph_id_error"] = True
             continue
         tmp = {}
         _collect(tmp, [it], {it["rid"]: rr[(it["rid"], parts)]}, _run(path), final=True)
@@ -1325,6 +1333,7 @@ def _collect(out, its, rendered, r, final=False):
 # judging
 # ---------------------------------------------------------------------------------------------
 DIRECT_CRASH = "DIRECT-VIEW-CRASH "
+DIRECT_DIFF = "DIRECT-VIEW-DIFFERS-FROM-NUMPY "
 
 
 def same_obs(a, b):
@@ -1378,7 +1387,8 @@ def judge(case, res):
     if base is not None:
         f = e2.obs_matches(base["obs"], exp, tol)
         if f:
-            fails.append("direct view differs from the NumPy reference: %s" % f)
+            # the view itself disagrees with NumPy: a matter of the view properties (C03..C08, C16, C17); functor forms cannot be judged against it
+            return [DIRECT_DIFF + f]
     if kind in ("curry", "compose"):
         for i, m in meta.items():
             if m["role"] != "variant" or i not in recs:
@@ -1387,6 +1397,9 @@ def judge(case, res):
                 f = e2.obs_matches(recs[i]["obs"], exp, tol)
                 if f:
                     fails.append("functor form %s differs from the NumPy reference: %s" % (describe_variant(case, m), f))
+                continue
+            if recs[i].get("rk", "value") != "value":
+                fails.append("functor form %s returned a %s instead of the evaluated array" % (describe_variant(case, m), recs[i]["rk"]))
                 continue
             f = same_obs(recs[i]["obs"], base["obs"])
             if f:
@@ -1424,10 +1437,8 @@ def judge(case, res):
         f = judge_graph(case, g["g"], base.get("ids", []))
         if f:
             fails.append(f)
-    if "graph" in res.get("rejected_parts", []) and base is not None:
-        ids = base.get("ids", [])
-        if any(i < 16 for i in ids):
-            fails.append("get_compute_graph does not compile and a view id (%s) lies in the range of operand ids: id collision" % [i for i in ids if i < 16])
+    if "graph" in res.get("rejected_parts", []) and res.get("graph_id_error") and base is not None:
+        fails.append("get_compute_graph does not compile: a node id is duplicated or missing while the graph is assembled (view ids %s, operand ids are small integers)" % base.get("ids", []))
     return fails
 
 
@@ -1487,10 +1498,59 @@ def describe_variant(case, m):
     return "%s split %s" % (brs[m.get("bracket", 0)], m.get("split"))
 
 
+CONST_KINDS = ("raw", "std_array", "fixed_ndarray", "cs_fb")
+
+
+def swap_positions(case):
+    return [i for i, e in enumerate(case["chain"][:-1]) if e.get("c") in ("swap", "dig1", "bury1")]
+
+
+def swapmaybe_class(case):
+    """swap / dig1 / bury1 (all swap_t) somewhere but at the right end of a chain, fed by a functor result that may be maybe-typed: any leaf without a
+    compile-time shape, or a functor with attributes / outside the plain ufuncs to its right"""
+    if case.get("kind") != "compose":
+        return False
+    ps = swap_positions(case)
+    if not ps:
+        return False
+    right = case["chain"][max(ps) + 1:]
+    plain = all("f" in e and not e["attrs"] and FX[e["f"]].group == "ufunc" for e in right)
+    return not (plain and all(k in CONST_KINDS for k in case["leaf_kinds"]))
+
+
+def _plain(e):
+    return "f" in e and not e["attrs"] and FX[e["f"]].group == "ufunc"
+
+
+def matmul_class(case):
+    """view::matmul receives a view that may be maybe-typed (functor application / nested views pass the maybe on): its maybe branch builds the view from
+    temporaries. Not in the class: every leaf has a compile-time shape and all other functors are attribute-free ufuncs (nothing is maybe-typed then)"""
+    k = case.get("kind")
+    if k == "compose":
+        ch = case["chain"]
+        pos = [i for i, e in enumerate(ch[:-1]) if e.get("f") == "matmul"]
+        if not pos:
+            return False
+        others = [e for i, e in enumerate(ch) if e.get("f") != "matmul" and "c" not in e]
+    elif k == "extract":
+        nl = len(case["arrays"])
+        pos = [s for s in case["stages"] if s["f"] == "matmul" and any(i >= nl for i in s["in"])]
+        if not pos:
+            return False
+        others = [s for s in case["stages"] if s["f"] != "matmul"]
+    else:
+        return False
+    return not (all(_plain(e) for e in others) and all(kd in CONST_KINDS for kd in case["leaf_kinds"]))
+
+
 def classify(case, failure):
     """finding id of a failure (None = unclassified)"""
     f = str(failure)
     k = case.get("kind")
+    if k == "compose" and "instead of the evaluated array" in f and swap_positions(case):
+        return F_SWAPMAYBE
+    if matmul_class(case) and (f.startswith("program crashed") or "differs from the" in f or "instead of the evaluated" in f):
+        return F_MATMUL
     if k != "extract":
         return None
     if ("stack-use-after-scope" in f or "heap-use-after-free" in f) and dangling_class(case):
@@ -1507,7 +1567,9 @@ def classify(case, failure):
         return F_SIBLING
     if f.startswith("graph:") and "share node ids" not in f and leafid_class(case):
         return F_LEAFID
-    if "view ids are not unique" in f or "id collision" in f or "share node ids" in f:
+    if "get_compute_graph does not compile" in f:
+        return F_LEAFID if leafid_class(case) else F_HASH
+    if "view ids are not unique" in f or "share node ids" in f:
         return F_HASH
     return None
 
@@ -1553,6 +1615,9 @@ def fixed_compose_cases():
     add([F("subtract"), C("bury1"), F("square")], [A([2, 3]), A([2, 3], 50)])
     add([F("subtract"), F("multiply"), F("add"), C("dig3")], [A([2], 1), A([2], 10), A([2], 100), A([2], 1000)], ["raw", "fixed_ndarray", "ds_db", "std_array"])
     add([F("maximum"), F("subtract"), F("add"), C("bury3")], [A([2], 1), A([2], 10), A([2], 100), A([2], 1000)])
+    # swap family fed by the (maybe-typed) result of a functor over run-time shaped leaves
+    add([F("square"), F("add"), C("bury1"), F("subtract")], [A([3], 1), A([1], 10), A([1], 100)], ["fs_hb", "dynamic_ndarray", "fs_fb"])
+    add([F("divide"), C("swap"), F("maximum")], [A([2], 1, "f64"), A([1], 3, "f64"), A([2], 9, "f64")], ["ds_db", "raw", "fixed_ndarray"])
     add([F("softmax", ["-1"], axis=-1), F("subtract"), F("reduce_maximum", ["-1", "nm::None", "nm::None", "nm::True"], axis=-1, keepdims=True), C("dup")],
         [A([2, 3], 1, "f64")])
     return cs
@@ -1579,6 +1644,13 @@ def fixed_extract_cases(th):
     add([A([2, 3]), A([2, 3], 10)], [("negative", [0], [], {}), ("negative", [1], [], {}), ("multiply", [2, 3], [], {})], ["fs_fb", "fs_fb"])
     # a view type whose id hashes to 0 (the id of the first operand)
     add([A([2, 3]), A([3], 10)], [("add", [0, 1], [], {}), ("multiply", [2, 1], [], {}), ("tanh", [3], [], {})], ["raw", "raw"])
+    # the user's own broadcast_to directly under a unary ufunc
+    add([A([1, 3])], [("broadcast_to", [0], [ia([2, 3], "size_t")], {"shape": [2, 3]}), ("negative", [1], [], {})])
+    # a non-ufunc binary view over a view with two leaves (operand ids are positions local to each sub-view)
+    add([A([2, 2]), A([2], 5), A([2, 2], 9)], [("add", [0, 1], [], {}), ("matmul", [3, 2], [], {})])
+    # matmul chain over run-time shaped leaves: the functor path hands maybe-typed views to view::matmul
+    add([A([3, 1], 2), A([1], 3), A([1, 2], 1), A([2, 1], 5)], [("minimum", [0, 1], [], {}), ("matmul", [4, 2], [], {}), ("matmul", [5, 3], [], {})],
+        ["dynamic_ndarray", "hs_hb", "cs_fb", "fs_fb"], alias=True)
     add([A([2, 3])], [("transpose", [0], [ia([1, 0])], {"axes": [1, 0]}), ("reshape", [1], [ia([6])], {"shape": [6]}), ("flip", [2], ["0"], {"axis": 0})], ["dynamic_ndarray"])
     add([A([2, 3]), A([3, 2], 3)], [("matmul", [0, 1], [], {}), ("reduce_add", [2], ["1"], {"axis": 1})])
     add([A([2, 3]), A([1, 3], 3)], [("concatenate", [0, 1], ["0"], {"axis": 0}), ("square", [2], [], {})])
@@ -1633,9 +1705,28 @@ class C14(e2.ProgenProp):
         noleaf = self._is_known(F_LEAFID)
         nobc = self._is_known(F_BCAST)
 
+        noswap = self._is_known(F_SWAPMAYBE)
+        nomm = self._is_known(F_MATMUL)
+
         def push(case, src):
             if case is None:
                 return
+            if case["kind"] == "compose" and noswap and swapmaybe_class(case):
+                if src == "fixed":
+                    excluded[F_SWAPMAYBE] = excluded.get(F_SWAPMAYBE, 0) + 1
+                    return
+                # random chains: keep the chain, give it leaves with compile-time shapes when that takes it out of the class
+                c2 = dict(case, leaf_kinds=[k if k in CONST_KINDS else CONST_KINDS[(i + len(k)) % len(CONST_KINDS)] for i, k in enumerate(case["leaf_kinds"])])
+                if swapmaybe_class(c2):
+                    excluded[F_SWAPMAYBE] = excluded.get(F_SWAPMAYBE, 0) + 1
+                    return
+                case = c2
+            if nomm and matmul_class(case):
+                c2 = dict(case, leaf_kinds=[k if k in CONST_KINDS else CONST_KINDS[(i + len(k)) % len(CONST_KINDS)] for i, k in enumerate(case["leaf_kinds"])])
+                if src == "fixed" or matmul_class(c2):
+                    excluded[F_MATMUL] = excluded.get(F_MATMUL, 0) + 1
+                    return
+                case = c2
             if case["kind"] == "extract":
                 if spine and not is_left_spine(case):
                     excluded[F_SPINE] = excluded.get(F_SPINE, 0) + 1
@@ -1712,6 +1803,10 @@ class C14(e2.ProgenProp):
             if fl_ and fl_[0].startswith(DIRECT_CRASH):
                 stats.rejected["direct_view_crashed(not judged)"] = stats.rejected.get("direct_view_crashed(not judged)", 0) + 1
                 info.setdefault("direct_view_crashes", []).append({"case": e2._trim(case, 900), "crash": fl_[0][len(DIRECT_CRASH):][:300]})
+                fl_ = []
+            if fl_ and fl_[0].startswith(DIRECT_DIFF):
+                stats.rejected["direct_view_differs_from_numpy(not judged)"] = stats.rejected.get("direct_view_differs_from_numpy(not judged)", 0) + 1
+                info.setdefault("direct_view_mismatches", []).append({"case": e2._trim(case, 900), "diff": fl_[0][len(DIRECT_DIFF):][:300]})
                 fl_ = []
             fl_ = self._filter_known(case, fl_, stats, it)
             for f in fl_[:2]:
@@ -1808,7 +1903,7 @@ class C14(e2.ProgenProp):
         r = res.get("b0", {"status": "missing"})
         if r["status"] != "ok":
             return []
-        return [(case, f, {}) for f in judge(c, r) if not f.startswith(DIRECT_CRASH)]
+        return [(case, f, {}) for f in judge(c, r) if not f.startswith(DIRECT_CRASH) and not f.startswith(DIRECT_DIFF)]
 
 
 # ---------------------------------------------------------------------------------------------
